@@ -12,11 +12,15 @@
            Mode = "tokens": the expansion of every sequence of <= MaxTok docstring tokens (section markers of
            the three styles, names, types, backticks, colons, newlines, indentation), loops started at line
            starts.  The token sequences are dumped and replayed through the real entry points.
+           Mode = "pumped": a token (or a token TRUNCATED mid-way: "Defaults", ":param", "Args", "--"), then ONE token repeated PumpK
+           times, then nothing or a word -- the shape on which "time proportional to the size of the input" is decided: a loop (or
+           a pattern matcher) that is quadratic or worse in a run of one token shows on a long run, not on a short sequence.  The model
+           checks Linear on runs of PumpK; the harness concretises every dumped (head, pumped, tail) with a run of 40.
 
    Advance = FALSE reproduces the pinned tree's emitter loop (no index is advanced): TLC reports the lasso. *)
 EXTENDS Integers, Sequences, FiniteSets, TLC, Json
 
-CONSTANTS Mode, MaxLen, MaxTok, Advance, Shard, NShards
+CONSTANTS Mode, MaxLen, MaxTok, Advance, Shard, NShards, PumpK
 
 Chars == <<"NL", "SP", "x", "-", ":", "Q", ",", "BS", "TAB">>
 IsWs(c) == c \in {"NL", "SP", "TAB"}              \* str.isspace: TAB stands for every whitespace character that is not " "
@@ -25,6 +29,9 @@ IsWs(c) == c \in {"NL", "SP", "TAB"}              \* str.isspace: TAB stands for
 DocTokens == <<"NL", "IND", "WSLINE", "word", "dot", "colon", "tick", "rparam", "rtype", "rreturn", "rrtype",
                "gargs", "greturns", "graises", "gitem", "nparams", "nreturns", "dashes", "nitem", "defaults",
                "TAB", "NBSP", "or", "of">>
+\* tokens cut short (the statement's "truncated mid-token"); used as the head of a pumped input
+CutTokens == <<"defaults_cut", "rparam_cut", "gargs_cut", "dashes_cut", "nparams_cut">>
+AllTokens == DocTokens \o CutTokens
 W(n) == [i \in 1..n |-> "x"]
 Expand(t) == CASE t = "NL" -> <<"NL">>
                [] t = "IND" -> <<"SP", "SP", "SP", "SP">>
@@ -48,6 +55,11 @@ Expand(t) == CASE t = "NL" -> <<"NL">>
                [] t = "defaults" -> W(8) \o <<"SP", "x", "x", "SP", "x">>
                [] t \in {"TAB", "NBSP"} -> <<"TAB">>
                [] t \in {"or", "of"} -> <<"SP", "x", "x", "SP">>
+               [] t = "defaults_cut" -> W(8)
+               [] t = "rparam_cut" -> <<":">> \o W(5)
+               [] t = "gargs_cut" -> W(4)
+               [] t = "dashes_cut" -> <<"-", "-">>
+               [] t = "nparams_cut" -> W(10)
 
 RECURSIVE Flat(_)
 Flat(ss) == IF ss = <<>> THEN <<>> ELSE Head(ss) \o Flat(Tail(ss))
@@ -73,10 +85,15 @@ LineStarts == {0} \cup {i + 1 : i \in {k \in 0..(N - 1) : At(k) = "NL"}}
 Hash(ts) == LET RECURSIVE H(_) H(i) == IF i > Len(ts) THEN 0 ELSE ts[i] * (i + 6) + H(i + 1) IN H(1)
 CharSeqs == UNION {[1..m -> 1..Len(Chars)] : m \in 0..MaxLen}
 TokSeqs == UNION {[1..m -> 1..Len(DocTokens)] : m \in 0..MaxTok}
+\* context, head, PumpK copies of one token, optional tail (token 4 = "word").  The context puts the pumped text at each syntactic
+\* position of a docstring: the summary, a parameter description in each of the three styles, the return description
+\* (8 = rparam, 10 = rreturn, 12 15 = gargs gitem, 16 18 19 1 2 = nparams dashes nitem NL IND)
+Contexts == {<<>>, <<8>>, <<10>>, <<12, 15>>, <<16, 18, 19, 1, 2>>}
+PumpSeqs == {c \o <<h>> \o [i \in 1..PumpK |-> t] \o tl : c \in Contexts, h \in 1..Len(AllTokens), t \in 1..Len(DocTokens), tl \in {<<>>, <<4>>}}
 Inputs == IF Mode = "chars"
           THEN {[toks |-> <<>>, s |-> [i \in 1..Len(f) |-> Chars[f[i]]]] : f \in {g \in CharSeqs : Hash(g) % NShards = Shard}}
-          ELSE {[toks |-> ts, s |-> Flat([i \in 1..Len(ts) |-> Expand(DocTokens[ts[i]])])] :
-                    ts \in {g \in TokSeqs : Hash(g) % NShards = Shard}}
+          ELSE {[toks |-> ts, s |-> Flat([i \in 1..Len(ts) |-> Expand(AllTokens[ts[i]])])] :
+                    ts \in {g \in (IF Mode = "pumped" THEN PumpSeqs ELSE TokSeqs) : Hash(g) % NShards = Shard}}
 
 Starts(l, str) == LET n == Len(str)
                       ls == {0} \cup {i : i \in {k \in 1..n : str[k] = "NL"}}
@@ -161,6 +178,6 @@ Termination == <>(pc \in {"done", "raised"})
 \* "time proportional to the size of the input"
 Linear == iters <= N + 2
 
-Dump == (pc \in {"done", "raised"} /\ Mode = "tokens" /\ loop = "EmitSkip") =>
-          PrintT(ToJson([toks |-> [i \in 1..Len(toks) |-> DocTokens[toks[i]]]]))
+Dump == (pc \in {"done", "raised"} /\ Mode \in {"tokens", "pumped"} /\ loop = "EmitSkip") =>
+          PrintT(ToJson([toks |-> [i \in 1..Len(toks) |-> AllTokens[toks[i]]]]))
 =====================================================================================
